@@ -1,6 +1,7 @@
 package main
 
 import (
+	"go/types"
 	"strconv"
 	"strings"
 
@@ -71,6 +72,10 @@ func runC07(p *Program, r *Result) {
 		}
 		r.Check(isNilConst(v[0]), rs.String(), "return#"+itoa(i), r.pos(ret), "error return with nil stanza", "a partial stanza is returned together with an error")
 	}
+
+	// ---- R07.6
+	r.Rule("R07.6", "no line of the header is read and passed over: every loop iteration keeps something of the line it took", 1)
+	checkNoLineDiscarded(p, r)
 
 	// ---- R07.5
 	r.Rule("R07.5", "a failed StanzaReader keeps failing", 2)
@@ -564,4 +569,129 @@ func phiEdgeFacts(tb *TB, ph *ssa.Phi, k int) []Atom {
 		}
 	}
 	return nil
+}
+
+// lineReadCalls: calls that take one line (or delimited piece) from a bufio.Reader.
+var lineReadCalls = map[string]bool{
+	"(*bufio.Reader).ReadBytes": true, "(*bufio.Reader).ReadString": true,
+	"(*bufio.Reader).ReadLine": true, "(*bufio.Reader).ReadSlice": true,
+}
+
+// checkNoLineDiscarded (R07.6 = R03.10 = R16.8): in the header and stanza reader no loop takes a
+// line from the input and goes round again without having kept anything of it (a store, or a value
+// carried into the next iteration). Such a loop passes over input, so that several byte strings
+// parse to the same header: the re-serialisation that is MACed is then not what was received.
+func checkNoLineDiscarded(p *Program, r *Result) {
+	readers := map[*ssa.Function]bool{} // module functions that hand out a line they read
+	for changed := true; changed; {
+		changed = false
+		for _, fn := range p.Funcs {
+			if fn.Pkg == nil || fn.Pkg.Pkg.Path() != pkgFormat || readers[fn] {
+				continue
+			}
+			for _, c := range callsIn(fn) {
+				if lineReadCalls[calleeName(c.Common())] || (c.Common().StaticCallee() != nil && readers[c.Common().StaticCallee()]) {
+					readers[fn], changed = true, true
+					break
+				}
+			}
+		}
+	}
+	n := 0
+	for _, fn := range p.Funcs {
+		if fn.Pkg == nil || fn.Pkg.Pkg.Path() != pkgFormat {
+			continue
+		}
+		loops := naturalLoops(fn)
+		for _, c := range callsIn(fn) {
+			isRead := lineReadCalls[calleeName(c.Common())] || (c.Common().StaticCallee() != nil && readers[c.Common().StaticCallee()])
+			if !isRead {
+				continue
+			}
+			for _, l := range loops {
+				if !l.Blocks[c.Block()] {
+					continue
+				}
+				n++
+				r.Saw(fn.String())
+				keeps := func(b *ssa.BasicBlock, from int) bool {
+					for _, in := range b.Instrs[from:] {
+						switch x := in.(type) {
+						case *ssa.Store, *ssa.MapUpdate, *ssa.Send:
+							return true
+						case ssa.CallInstruction:
+							if callee := x.Common().StaticCallee(); callee != nil && callee.Blocks != nil {
+								if e := p.EffectsOf(callee); e != nil && (len(e.AllFields) > 0 || len(e.AllGlobals) > 0 || len(e.WritesParam) > 0) && !readers[callee] {
+									return true
+								}
+							}
+						}
+					}
+					return false
+				}
+				carries := func(pred *ssa.BasicBlock) bool {
+					idx := -1
+					for i, pr := range l.Header.Preds {
+						if pr == pred {
+							idx = i
+						}
+					}
+					for _, in := range l.Header.Instrs {
+						ph, ok := in.(*ssa.Phi)
+						if !ok {
+							break
+						}
+						if idx < 0 || idx >= len(ph.Edges) {
+							continue
+						}
+						e := ph.Edges[idx]
+						if _, isK := e.(*ssa.Const); isK || e == ssa.Value(ph) {
+							continue
+						}
+						if bt, ok := ph.Type().Underlying().(*types.Basic); ok && bt.Info()&(types.IsInteger|types.IsBoolean) != 0 {
+							continue
+						}
+						return true
+					}
+					return false
+				}
+				// is the header reachable from behind the read through blocks that keep nothing?
+				var witness []*ssa.BasicBlock
+				seen := map[*ssa.BasicBlock]bool{}
+				var walk func(b *ssa.BasicBlock, from int, trail []*ssa.BasicBlock) bool
+				walk = func(b *ssa.BasicBlock, from int, trail []*ssa.BasicBlock) bool {
+					if keeps(b, from) {
+						return false
+					}
+					trail = append(trail, b)
+					for _, s := range p.feasibleSuccs(b) {
+						if s == l.Header {
+							if !carries(b) {
+								witness = append([]*ssa.BasicBlock{}, trail...)
+								return true
+							}
+							continue
+						}
+						if !l.Blocks[s] || seen[s] {
+							continue
+						}
+						seen[s] = true
+						if walk(s, 0, trail) {
+							return true
+						}
+					}
+					return false
+				}
+				found := walk(c.Block(), instrIndex(c.(ssa.Instruction))+1, nil)
+				tr := ""
+				for _, b := range witness {
+					tr += " b" + itoa(b.Index)
+				}
+				r.Check(!found, fn.String(), "line-read:"+short(calleeName(c.Common()))+"@loop-b"+itoa(l.Header.Index), r.pos(c), "every way round the loop keeps something of the line it read", "a line is read and the loop goes round again without keeping anything of it (blocks"+tr+"): input is passed over in silence, so different byte strings parse to the same header and the MACed re-serialisation is not what was received")
+			}
+		}
+	}
+	if n == 0 {
+		r.OK(pkgFormat, "line-read:none-in-loop", "", "no line read inside a loop of the format package")
+	}
 }
